@@ -9,7 +9,7 @@ try:
 except ImportError:
     NOT_APPLICABLE = {}
 
-ALL = ["C%02d" % i for i in range(1, 21)]
+ALL = ["C%02d" % i for i in range(1, 21)]  # "selftest" in props.py is internal, not a property
 checks = []
 for pid in ALL:
     if pid not in PROPS:
